@@ -545,6 +545,21 @@ def stateless_rule(ctx, model, rid: str, modules, floor: int, what: str, allowed
                 if isinstance(t, ast.Name) and (isinstance(st.value, (ast.Dict, ast.List, ast.Set, ast.DictComp, ast.ListComp, ast.SetComp))
                                                 or (isinstance(st.value, ast.Call) and _dotted(st.value.func).split(".")[-1] in ("dict", "list", "set", "defaultdict", "OrderedDict", "WeakKeyDictionary", "WeakValueDictionary"))):
                     mutable[t.id] = st
+        # a module-level container is state only if something in the module mutates it; tables that are only read are constants
+        MUT = {"append", "extend", "insert", "pop", "remove", "clear", "update", "setdefault", "popitem", "add", "discard", "sort", "reverse", "__setitem__", "appendleft", "popleft"}
+        written = set()
+        for x in walk_ordered(m.tree, into_functions=True):
+            if isinstance(x, ast.Subscript) and isinstance(x.ctx, (ast.Store, ast.Del)) and isinstance(x.value, ast.Name):
+                written.add(x.value.id)
+            elif isinstance(x, ast.Call) and isinstance(x.func, ast.Attribute) and x.func.attr in MUT and isinstance(x.func.value, ast.Name):
+                written.add(x.func.value.id)
+            elif isinstance(x, ast.Global):
+                written.update(x.names)
+            elif isinstance(x, ast.AugAssign) and isinstance(x.target, ast.Name):
+                written.add(x.target.id)
+        for name in list(mutable):
+            if name not in written:
+                del mutable[name]
         for name in list(mutable):
             if allowed and (mod, name) in allowed:
                 ctx.note(f"{mod}.{name}: module-level container exempt from the stateless rule — {allowed[(mod, name)]}")
